@@ -120,7 +120,7 @@ SiblingsOf(idx, sid) ==
   ELSE FindAll(idx, SearchOfSid(With1(sid, KeyType(sid), "*"))).res
 \* get_last(key): the single answer of the '>' search, or the empty Sid
 GetLastOf(idx, sid, key) ==
-  IF sid.type = "" \/ ~DHas(sid.fields, key) THEN {}
+  IF sid.type = "" THEN {}
   ELSE LET q == With1(sid, key, ">") IN IF q.type = "" THEN {} ELSE FindAll(idx, SearchOfSid(q)).res
 
 (* ---- sidecar data ---- *)
